@@ -24,6 +24,8 @@ for d in sorted(glob.glob(V + '/seeded/C*-[a-z]')):
             sig = s[0].replace('signature: ', '').split(' (x')[0]
             break
     star = " (*)" if m.get('initially_missed') else ""
+    if m.get('obsolete'):
+        star += " (obsolete on the current tree, see meta.json)"
     caught = ", ".join(m.get('caught_by', [])) or "**not caught**"
     rows[rnd].append("| %s%s | %s | %s. Needs: %s | %s | `%s` |" % (name, star, m['property'], desc[:130], need, caught, sig[:100]))
     stats[rnd][0] += 1 if ok else 0
